@@ -155,6 +155,25 @@ class QasmModule(ABC):  # pylint: disable=too-many-instance-attributes
             else self._unrolled_ast.statements
         )
 
+    @staticmethod
+    def _contains(statements, stmt_type) -> bool:
+        """Whether a statement of type ``stmt_type`` occurs in ``statements`` at any nesting level
+        (blocks of branches, loops, switch cases and subroutine bodies included)."""
+        for stmt in statements:
+            if isinstance(stmt, stmt_type):
+                return True
+            for attr in ("if_block", "else_block", "block", "body"):
+                nested = getattr(stmt, attr, None)
+                if isinstance(nested, list) and QasmModule._contains(nested, stmt_type):
+                    return True
+            if isinstance(stmt, qasm3_ast.SwitchStatement):
+                blocks = [case for _, case in stmt.cases]
+                if stmt.default is not None:
+                    blocks.append(stmt.default)
+                if any(QasmModule._contains(block.statements, stmt_type) for block in blocks):
+                    return True
+        return False
+
     def has_measurements(self) -> bool:
         """Check if the module has any measurement operations."""
         if self._has_measurements is None:
@@ -166,10 +185,9 @@ class QasmModule(ABC):  # pylint: disable=too-many-instance-attributes
                 if len(self._unrolled_ast.statements) > 0
                 else self._statements
             )
-            for stmt in stmts_to_check:
-                if isinstance(stmt, qasm3_ast.QuantumMeasurementStatement):
-                    self._has_measurements = True
-                    break
+            self._has_measurements = self._contains(
+                stmts_to_check, qasm3_ast.QuantumMeasurementStatement
+            )
         return self._has_measurements
 
     def remove_measurements(self, in_place: bool = True) -> Optional["QasmModule"]:
@@ -213,10 +231,7 @@ class QasmModule(ABC):  # pylint: disable=too-many-instance-attributes
                 if len(self._unrolled_ast.statements) > 0
                 else self._statements
             )
-            for stmt in stmts_to_check:
-                if isinstance(stmt, qasm3_ast.QuantumBarrier):
-                    self._has_barriers = True
-                    break
+            self._has_barriers = self._contains(stmts_to_check, qasm3_ast.QuantumBarrier)
         return self._has_barriers
 
     def remove_barriers(self, in_place: bool = True) -> Optional["QasmModule"]:
